@@ -29,7 +29,7 @@ type c03H2Scenario struct {
 	body     string // the body the origin means to send
 	send     int    // DATA bytes actually sent before the ending
 	extra    int    // DATA bytes sent beyond the body (over-long)
-	ending   string // end-stream | rst | goaway | close | midframe | none-then-close-before-headers
+	ending   string // end-stream | end-stream-then-rst | rst | goaway | close | midframe | close-before-headers
 	frames   int    // number of DATA frames the sent bytes are split into
 	complete bool   // the exchange is a complete, consistent response
 	status   int    // response status (0 = 200)
@@ -37,9 +37,133 @@ type c03H2Scenario struct {
 	code     uint32 // error code of RST_STREAM / GOAWAY
 	lastAt   bool   // GOAWAY last-stream-id = this stream (else 0, below it)
 	finish   bool   // after GOAWAY(last = this stream): still send the rest with END_STREAM
-	retryOK  bool   // the client may legitimately have replayed the request (unprocessed stream)
+	retryOK  bool   // the client may legitimately have replayed the request (no response frame was sent)
 	interim  int    // informational (103) HEADERS in front of the final response
 	late     bool   // the surplus bytes go out in a later DATA frame, after the client drained the body
+	noHead   bool   // the fault (rst / goaway) hits before any response frame
+	trailers bool   // END_STREAM is carried by a trailers HEADERS frame instead of the last DATA frame
+	afterES  int    // DATA bytes sent after END_STREAM (not part of the response)
+	headES   bool   // END_STREAM on the HEADERS frame although a length > 0 is declared
+	closeAt  int    // >= 0: the (streaming) caller reads this many bytes, then closes the body; the peer leaves the stream open
+}
+
+// c03H2Fr is one step of the peer's script for a stream. The SAME plan drives the peer (what is
+// written to the wire) and the model (the event list of lane c03h2).
+type c03H2Fr struct {
+	kind      string // H | D | R | G | X (close the TCP connection) | P (cut DATA frame, then X follows) | S (sleep)
+	es        bool
+	fields    [][2]string
+	data      []byte
+	code      uint32
+	lastAt    bool
+	ms        int
+	announced int // P: the payload length the frame header announces
+}
+
+func c03H2Plan(sc c03H2Scenario) []c03H2Fr {
+	var fr []c03H2Fr
+	if sc.ending == "close-before-headers" {
+		return []c03H2Fr{{kind: "X"}}
+	}
+	if sc.noHead {
+		switch sc.ending {
+		case "rst":
+			fr = append(fr, c03H2Fr{kind: "R", code: sc.code})
+		case "goaway":
+			fr = append(fr, c03H2Fr{kind: "G", code: sc.code, lastAt: sc.lastAt}, c03H2Fr{kind: "S", ms: 20}, c03H2Fr{kind: "X"})
+		}
+		return fr
+	}
+	for j := 0; j < sc.interim; j++ {
+		fr = append(fr, c03H2Fr{kind: "H", fields: [][2]string{{":status", "103"}, {"link", "</s.css>; rel=preload"}}})
+	}
+	st := sc.status
+	if st == 0 {
+		st = 200
+	}
+	fields := [][2]string{{":status", strconv.Itoa(st)}, {"content-type", "application/octet-stream"}}
+	if sc.declared >= 0 {
+		fields = append(fields, [2]string{"content-length", strconv.Itoa(sc.declared)})
+	}
+	endsByFlag := sc.ending == "end-stream" || sc.ending == "end-stream-then-rst"
+	fr = append(fr, c03H2Fr{kind: "H", fields: fields, es: sc.headES || (endsByFlag && sc.send+sc.extra == 0 && !sc.trailers)})
+	payload := []byte(sc.body)[:sc.send]
+	if !sc.late {
+		payload = append(payload, bytes.Repeat([]byte("X"), sc.extra)...)
+	}
+	n := sc.frames
+	if n < 1 {
+		n = 1
+	}
+	for i := 0; i < n && len(payload) > 0; i++ {
+		k := len(payload) / (n - i)
+		if k == 0 {
+			k = len(payload)
+		}
+		last := i == n-1 || k == len(payload)
+		if sc.ending == "midframe" && last {
+			// a DATA frame header announcing k bytes, then only half of them, then TCP close
+			return append(fr, c03H2Fr{kind: "P", announced: k, data: payload[:k/2]}, c03H2Fr{kind: "X"})
+		}
+		fr = append(fr, c03H2Fr{kind: "D", es: endsByFlag && last && !sc.late && !sc.trailers, data: payload[:k]})
+		payload = payload[k:]
+	}
+	if sc.late {
+		// let the client consume exactly the declared bytes first
+		fr = append(fr, c03H2Fr{kind: "S", ms: 40}, c03H2Fr{kind: "D", es: !sc.trailers, data: bytes.Repeat([]byte("X"), sc.extra)})
+	}
+	if sc.trailers && endsByFlag {
+		fr = append(fr, c03H2Fr{kind: "H", es: true, fields: [][2]string{{"x-trailer", "v"}}})
+	}
+	if sc.afterES > 0 {
+		fr = append(fr, c03H2Fr{kind: "D", data: bytes.Repeat([]byte("Y"), sc.afterES)})
+	}
+	switch sc.ending {
+	case "rst", "end-stream-then-rst":
+		fr = append(fr, c03H2Fr{kind: "R", code: sc.code})
+	case "goaway":
+		fr = append(fr, c03H2Fr{kind: "G", code: sc.code, lastAt: sc.lastAt})
+		if sc.finish {
+			fr = append(fr, c03H2Fr{kind: "D", es: true, data: []byte(sc.body)[sc.send:]})
+		} else {
+			fr = append(fr, c03H2Fr{kind: "S", ms: 20}, c03H2Fr{kind: "X"})
+		}
+	case "close":
+		fr = append(fr, c03H2Fr{kind: "X"})
+	}
+	return fr
+}
+
+// c03H2Events renders the plan as the event list of lane c03h2 for stream `id`.
+func c03H2Events(plan []c03H2Fr, id uint32) string {
+	var evs []string
+	b01 := map[bool]string{false: "0", true: "1"}
+	for _, f := range plan {
+		switch f.kind {
+		case "H":
+			var kv []string
+			for _, p := range f.fields {
+				kv = append(kv, verifh.Hex(p[0])+":"+verifh.Hex(p[1]))
+			}
+			evs = append(evs, "H;"+b01[f.es]+";"+strings.Join(kv, ","))
+		case "D":
+			evs = append(evs, "D;"+b01[f.es]+";0;"+verifh.Hex(string(f.data)))
+		case "R":
+			evs = append(evs, "R;"+strconv.Itoa(int(f.code)))
+		case "G":
+			last := uint32(0)
+			if f.lastAt {
+				last = id
+			}
+			evs = append(evs, "G;"+strconv.Itoa(int(last))+";"+strconv.Itoa(int(f.code)))
+		case "X":
+			evs = append(evs, "X")
+		}
+	}
+	if len(evs) == 0 {
+		return "none"
+	}
+	return strings.Join(evs, "/")
 }
 
 type c03H2Peer struct {
@@ -107,7 +231,6 @@ func (p *c03H2Peer) serve(c net.Conn) {
 	if _, err := io.ReadFull(c, preface); err != nil || string(preface) != xhttp2.ClientPreface {
 		return
 	}
-	var wmu sync.Mutex
 	fr := xhttp2.NewFramer(c, c)
 	fr.WriteSettings()
 	var hbuf bytes.Buffer
@@ -120,138 +243,85 @@ func (p *c03H2Peer) serve(c net.Conn) {
 		switch f := f.(type) {
 		case *xhttp2.SettingsFrame:
 			if !f.IsAck() {
-				wmu.Lock()
 				fr.WriteSettingsAck()
-				wmu.Unlock()
 			}
 		case *xhttp2.PingFrame:
 			if !f.IsAck() {
-				wmu.Lock()
 				fr.WritePing(true, f.Data)
-				wmu.Unlock()
 			}
 		case *xhttp2.HeadersFrame:
 			if !f.HeadersEnded() {
 				return // the client's GET fits one frame
 			}
-			sc := p.nextScenario()
 			id := f.StreamID
-			wmu.Lock()
-			if sc.ending == "close-before-headers" {
-				wmu.Unlock()
-				return
-			}
-			for j := 0; j < sc.interim; j++ {
-				hbuf.Reset()
-				enc.WriteField(hpack.HeaderField{Name: ":status", Value: "103"})
-				enc.WriteField(hpack.HeaderField{Name: "link", Value: "</s.css>; rel=preload"})
-				fr.WriteHeaders(xhttp2.HeadersFrameParam{StreamID: id, BlockFragment: hbuf.Bytes(), EndHeaders: true})
-			}
-			hbuf.Reset()
-			st := sc.status
-			if st == 0 {
-				st = 200
-			}
-			enc.WriteField(hpack.HeaderField{Name: ":status", Value: strconv.Itoa(st)})
-			enc.WriteField(hpack.HeaderField{Name: "content-type", Value: "application/octet-stream"})
-			if sc.declared >= 0 {
-				enc.WriteField(hpack.HeaderField{Name: "content-length", Value: strconv.Itoa(sc.declared)})
-			}
-			fr.WriteHeaders(xhttp2.HeadersFrameParam{StreamID: id, BlockFragment: hbuf.Bytes(), EndHeaders: true,
-				EndStream: (sc.ending == "end-stream" || sc.ending == "end-stream-then-rst") && sc.send+sc.extra == 0})
-			payload := []byte(sc.body)[:sc.send]
-			if !sc.late {
-				payload = append(payload, bytes.Repeat([]byte("X"), sc.extra)...)
-			}
-			n := sc.frames
-			if n < 1 {
-				n = 1
-			}
-			for i := 0; i < n && len(payload) > 0; i++ {
-				k := len(payload) / (n - i)
-				if k == 0 {
-					k = len(payload)
-				}
-				last := i == n-1 || k == len(payload)
-				if sc.ending == "midframe" && last {
-					// a DATA frame header announcing k bytes, then only half of them, then TCP close
-					hdr := []byte{byte(k >> 16), byte(k >> 8), byte(k), 0, 0, byte(id >> 24), byte(id >> 16), byte(id >> 8), byte(id)}
-					c.Write(hdr)
-					c.Write(payload[:k/2])
-					wmu.Unlock()
+			for _, st := range c03H2Plan(p.nextScenario()) {
+				switch st.kind {
+				case "H":
+					hbuf.Reset()
+					for _, kv := range st.fields {
+						enc.WriteField(hpack.HeaderField{Name: kv[0], Value: kv[1]})
+					}
+					fr.WriteHeaders(xhttp2.HeadersFrameParam{StreamID: id, BlockFragment: hbuf.Bytes(), EndHeaders: true, EndStream: st.es})
+				case "D":
+					fr.WriteData(id, st.es, st.data)
+				case "R":
+					fr.WriteRSTStream(id, xhttp2.ErrCode(st.code))
+				case "G":
+					last := uint32(0)
+					if st.lastAt {
+						last = id
+					}
+					fr.WriteGoAway(last, xhttp2.ErrCode(st.code), nil)
+				case "P":
+					k := st.announced
+					c.Write([]byte{byte(k >> 16), byte(k >> 8), byte(k), 0, 0, byte(id >> 24), byte(id >> 16), byte(id >> 8), byte(id)})
+					c.Write(st.data)
+				case "S":
+					time.Sleep(time.Duration(st.ms) * time.Millisecond)
+				case "X":
 					return
 				}
-				fr.WriteData(id, (sc.ending == "end-stream" || sc.ending == "end-stream-then-rst") && last && !sc.late, payload[:k])
-				payload = payload[k:]
 			}
-			if sc.late {
-				// let the client consume exactly the declared bytes first
-				wmu.Unlock()
-				time.Sleep(40 * time.Millisecond)
-				wmu.Lock()
-				fr.WriteData(id, true, bytes.Repeat([]byte("X"), sc.extra))
-			}
-			switch sc.ending {
-			case "rst":
-				fr.WriteRSTStream(id, xhttp2.ErrCode(sc.code))
-			case "end-stream-then-rst":
-				fr.WriteRSTStream(id, xhttp2.ErrCode(sc.code))
-			case "goaway":
-				last := uint32(0)
-				if sc.lastAt {
-					last = id
-				}
-				fr.WriteGoAway(last, xhttp2.ErrCode(sc.code), nil)
-				if sc.finish {
-					rest := []byte(sc.body)[sc.send:]
-					fr.WriteData(id, true, rest)
-					wmu.Unlock()
-					continue
-				}
-				wmu.Unlock()
-				time.Sleep(20 * time.Millisecond)
-				return
-			case "close", "midframe":
-				wmu.Unlock()
-				return
-			}
-			wmu.Unlock()
 		}
 	}
 }
 
 func TestVerif_C03_h2cut(t *testing.T) {
 	s := verifh.New(t, "C03", "h2cut",
-		"real client forced to HTTP/2 (cleartext, prior knowledge) against a frame-script peer: response HEADERS with/without content-length, the body split into 1-4 DATA frames, "+
-			"ended right after HEADERS or after a strict prefix of the body by RST_STREAM with every error code 0..13 (incl. NO_ERROR) / GOAWAY (NO_ERROR or error, last-stream-id below or at the stream) / TCP close at a frame boundary / TCP close inside a DATA frame / END_STREAM before the declared length, "+
-			"or with more DATA than declared, or closed before HEADERS; controls: complete responses, graceful GOAWAY(NO_ERROR) after which the response completes, RST_STREAM(NO_ERROR) after END_STREAM; "+
-			"first request under a caller mode (auto, streaming, body transformer, SetOutput, SetOutputFile, download callback, dump, non-matching retry); then a second request on the same client. "+
-			"Oracle: success implies a complete consistent response and the true body; the second request succeeds. non-trivial = fault injected")
+		"real client forced to HTTP/2 (cleartext, prior knowledge) against a frame-script peer whose script is ALSO the event list given to the Lean model (lane c03h2): response HEADERS with/without content-length, 0-2 informational HEADERS in front, the body split into 1-4 DATA frames, "+
+			"ended before any response frame, right after HEADERS or after a strict prefix of the body by RST_STREAM with every error code 0..13 / GOAWAY (NO_ERROR or error, last-stream-id below or at the stream) / TCP close at a frame boundary / TCP close inside a DATA frame / END_STREAM (on DATA, on HEADERS, on a trailers HEADERS) before the declared length, "+
+			"or with more DATA than declared (same frame, later frame after the caller drained, at the read-buffer boundary, declared 0), DATA after END_STREAM; controls: complete responses (also with trailers, HEAD with length), graceful GOAWAY(NO_ERROR) after which the response completes, RST_STREAM(NO_ERROR) after END_STREAM; "+
+			"first request under a caller mode (auto, streaming with the delivered byte count, body transformer, SetOutput, SetOutputFile, download callback, dump, non-matching retry); then a second request on the same client. "+
+			"MODEL-judged: fail / fail-call / fail-body delivered=<bytes> / retry (replayed) / ok status body, and dials after the second request (1 iff the model's connection can take a new request and is in the pool). "+
+			"Second opinion (Go oracle): success implies a complete consistent response and the true body; the second request succeeds. non-trivial = fault injected")
 	r := s.Rand()
 	peer := newC03H2Peer(t)
 	defer func() { peer.ln.Close(); peer.reset(nil) }()
 	url := "http://" + peer.ln.Addr().String() + "/x"
-	n := verifh.N(250, 2500)
+	n := verifh.N(350, 3500)
 	reached := map[string]int{}
 	failures := 0
 	tmpDir := t.TempDir()
-	rstSeq, goSeq, overSeq := 0, 0, 0
+	rstSeq, goSeq, overSeq, preRst, preGo := 0, 0, 0, 0, 0
 	perName := map[string]int{}
 	for i := 0; i < n && failures < 12; i++ {
 		body := verifh.RandBytes(r, 1+r.Intn(300), "abcdefghijklmnopqrstuvwxyz")
-		sc := c03H2Scenario{body: body, declared: len(body), send: len(body), frames: 1 + r.Intn(4), ending: "end-stream", complete: true}
+		sc := c03H2Scenario{body: body, declared: len(body), send: len(body), frames: 1 + r.Intn(4), ending: "end-stream", complete: true, closeAt: -1}
 		if r.Intn(3) == 0 {
 			sc.declared = -1
 		}
 		// where the fault hits: right after HEADERS (no DATA yet) or after a strict prefix of the body
 		cutAt := func() int {
-			if r.Intn(3) == 0 {
-				return 0
+			switch r.Intn(4) {
+			case 0:
+				return 0 // right after HEADERS
+			case 1:
+				return len(body) - 1 // exactly one byte short of the whole body
 			}
 			return r.Intn(len(body))
 		}
 		allCodes := []uint32{0, 1, 2, 3, 4, 5, 6, 7, 8, 9, 10, 11, 12, 13}
-		switch r.Intn(14) {
+		switch r.Intn(20) {
 		case 0, 1: // control
 			sc.name = "complete"
 			// controls without a body although a length is declared: HEAD, 204, 304
@@ -274,8 +344,6 @@ func TestVerif_C03_h2cut(t *testing.T) {
 			sc.lastAt = (goSeq/4)%2 == 0
 			goSeq++
 			sc.name = "goaway-code-" + strconv.Itoa(int(sc.code)) + map[bool]string{true: "-last-at", false: "-last-below"}[sc.lastAt]
-			// a stream above last-stream-id was not processed: the client may replay the request
-			sc.retryOK = !sc.lastAt
 		case 6: // graceful shutdown: GOAWAY(NO_ERROR, last = this stream), the response still completes
 			sc.name, sc.ending, sc.send, sc.code, sc.lastAt, sc.finish = "goaway-graceful-complete", "goaway", cutAt(), 0, true, true
 		case 7:
@@ -286,9 +354,9 @@ func TestVerif_C03_h2cut(t *testing.T) {
 				sc.send = len(body)
 			}
 		case 9: // END_STREAM before the declared length
-			sc.name, sc.declared, sc.send, sc.complete = "short-end-stream", len(body), r.Intn(len(body)), false
+			sc.name, sc.declared, sc.send, sc.complete = "short-end-stream", len(body), cutAt(), false
 		case 10: // more DATA than declared
-			sc.name, sc.declared, sc.extra, sc.complete = "overlong", len(body), 1+r.Intn(20), false
+			sc.name, sc.declared, sc.extra, sc.complete = "overlong", len(body), verifh.Pick(r, []int{1, 1, 1 + r.Intn(20), 2 + r.Intn(19)}), false
 			switch overSeq % 4 {
 			case 1: // the surplus arrives in a later DATA frame, after the declared bytes were consumed
 				sc.name, sc.late = "overlong-late-frame", true
@@ -305,15 +373,40 @@ func TestVerif_C03_h2cut(t *testing.T) {
 			sc.name, sc.ending, sc.complete, sc.code = "rst-after-full-body", "rst", false, verifh.Pick(r, []uint32{0, 0, 2, 8})
 		case 13: // control: END_STREAM, THEN RST_STREAM(NO_ERROR) (RFC 9113 8.1: "stop uploading")
 			sc.name, sc.ending, sc.code = "rst-noerror-after-end-stream", "end-stream-then-rst", 0
+		case 14: // the stream is reset before any response frame: REFUSED_STREAM and PROTOCOL_ERROR are replayed
+			sc.ending, sc.noHead, sc.complete, sc.retryOK = "rst", true, false, true
+			sc.code = []uint32{7, 1, 0, 8, 2, 11, 5}[preRst%7]
+			preRst++
+			sc.name = "rst-before-headers-code-" + strconv.Itoa(int(sc.code))
+		case 15: // GOAWAY before any response frame: a stream above last-stream-id is replayed unless the code is an error
+			sc.ending, sc.noHead, sc.complete, sc.retryOK = "goaway", true, false, true
+			sc.code = []uint32{0, 2, 0, 11}[preGo%4]
+			sc.lastAt = (preGo/4)%2 == 1
+			preGo++
+			sc.name = "goaway-before-headers-code-" + strconv.Itoa(int(sc.code)) + map[bool]string{true: "-last-at", false: "-last-below"}[sc.lastAt]
+		case 16: // END_STREAM carried by a trailers HEADERS frame: complete, or before the declared length
+			sc.trailers = true
+			if r.Intn(2) == 0 {
+				sc.name = "complete-with-trailers"
+			} else {
+				sc.name, sc.declared, sc.send, sc.complete = "short-with-trailers", len(body), cutAt(), false
+			}
+		case 17: // control: DATA after END_STREAM is not part of the response
+			sc.name, sc.afterES = "data-after-end-stream", 1+r.Intn(20)
+		case 18: // END_STREAM on HEADERS although a length > 0 is declared
+			sc.name, sc.declared, sc.send, sc.headES, sc.complete = "headers-end-stream-with-length", len(body), 0, true, false
+		case 19: // the caller gives up: it reads part of what arrived and closes the body while the peer keeps the stream open
+			sc.name, sc.ending, sc.send = "caller-closes-early", "open", 1+r.Intn(len(body))
+			sc.closeAt = r.Intn(sc.send + 1)
 		}
 		perName[sc.name]++
-		if perName[sc.name]%4 == 1 {
+		if perName[sc.name]%4 == 1 && !sc.noHead && sc.ending != "close-before-headers" {
 			sc.interim = 1 + r.Intn(2)
 			s.Count("interim-1xx")
 		}
 		peer.reset([]c03H2Scenario{sc})
 		c := C().EnableForceHTTP2().EnableH2C().SetTimeout(10 * time.Second)
-		stream := r.Intn(4) == 0
+		stream := r.Intn(4) == 0 || sc.closeAt >= 0
 		cc := &c03Caller{mode: c03PickMode(r, "", "", 0), dir: tmpDir}
 		if stream {
 			c.DisableAutoReadResponse().DisableAutoDecode()
@@ -328,10 +421,39 @@ func TestVerif_C03_h2cut(t *testing.T) {
 		if sc.head || sc.status == 304 {
 			want = ""
 		}
-		first, ferr := c03DoFirstM(c, method, url, stream, cc)
+		var fx c03First
+		closedThen := ""
+		if sc.closeAt >= 0 {
+			// read exactly closeAt bytes, close, and read once more
+			resp, err := c.R().Get(url)
+			if err != nil || resp == nil || resp.Response == nil {
+				fx.callFailed = true
+				if err != nil {
+					fx.err = err.Error()
+				}
+			} else {
+				fx.status = resp.StatusCode
+				buf := make([]byte, sc.closeAt)
+				n, _ := io.ReadFull(resp.Body, buf)
+				fx.body = buf[:n]
+				resp.Body.Close()
+				if _, rerr := resp.Body.Read(make([]byte, 1)); rerr != nil && rerr != io.EOF {
+					closedThen = "closed"
+				} else {
+					closedThen = "not-closed"
+				}
+				fx.ok = true
+			}
+		} else {
+			fx = c03DoFirstX(c, method, url, stream, cc)
+		}
+		first, ferr := fx.render()
 		callerName := cc.name()
 		if stream {
 			callerName = "stream"
+		}
+		if sc.closeAt >= 0 {
+			callerName = "stream-close"
 		}
 		s.Count("caller:" + callerName)
 		second, err2 := c.R().Get(url)
@@ -345,12 +467,42 @@ func TestVerif_C03_h2cut(t *testing.T) {
 				secondOK = second.String() == c03Second
 			}
 		}
+		dials := peer.dials()
 		c.GetTransport().CloseIdleConnections()
+		// the implementation's answer in the model's vocabulary
+		mode := map[bool]string{true: "s", false: "a"}[stream]
+		impl := "fail"
+		switch {
+		case sc.closeAt >= 0 && fx.ok:
+			mode = "c" + strconv.Itoa(sc.closeAt)
+			impl = "closed delivered=" + verifh.Hex(string(fx.body)) + " then=" + closedThen
+		case sc.closeAt >= 0:
+			mode = "c" + strconv.Itoa(sc.closeAt)
+			impl = "fail-call"
+		case fx.ok && string(fx.body) == c03Second:
+			impl = "retry" // what came back is the peer's NEXT response: the request was replayed
+			s.Count("replayed")
+		case fx.ok:
+			impl = "ok status=" + strconv.Itoa(fx.status) + " body=" + verifh.Hex(string(fx.body))
+		case stream && fx.callFailed:
+			impl = "fail-call"
+		case stream:
+			impl = "fail-body delivered=" + verifh.Hex(string(fx.body))
+		}
+		impl += " dials=" + strconv.Itoa(dials)
+		line := "c03h2 " + map[bool]string{true: "1", false: "0"}[sc.head] + " 1 " + c03H2Events(c03H2Plan(sc), 1) + " " + mode
+		// second opinion: the Go-side property oracle
 		ok, why := true, ""
-		if strings.HasPrefix(first, "ok") {
+		if sc.closeAt >= 0 {
+			// the caller gave up on purpose: nothing to judge but the bytes it was handed and the next request
+			if !fx.ok || string(fx.body) != body[:sc.closeAt] {
+				ok, why = false, "the bytes read before Close are not the first bytes of the body"
+			}
+			reached["ok"]++
+		} else if strings.HasPrefix(first, "ok") {
 			if sc.retryOK && first == "ok body="+c03Second {
 				// the unprocessed request was replayed on a new connection: a complete response
-				s.Count("replayed-after-goaway")
+				s.Count("replayed-unprocessed")
 			} else if !sc.complete {
 				ok, why = false, "incomplete/inconsistent HTTP/2 response reported as success: "+c04Short(first)
 			} else if first != "ok body="+want {
@@ -375,18 +527,20 @@ func TestVerif_C03_h2cut(t *testing.T) {
 		}
 		reached[sc.name]++
 		s.Count("scenario:" + sc.name)
-		human := fmt.Sprintf("h2 %s declared=%d body=%d sent=%d extra=%d frames=%d caller=%s -> %s (%s) second-ok=%v dials=%d",
-			sc.name, sc.declared, len(body), sc.send, sc.extra, sc.frames, callerName, c04Short(first), ferr, secondOK, peer.dials())
+		s.Count("dials:" + strconv.Itoa(dials))
+		human := fmt.Sprintf("h2 %s declared=%d body=%d sent=%d extra=%d frames=%d interim=%d caller=%s -> %s (%s) second-ok=%v dials=%d",
+			sc.name, sc.declared, len(body), sc.send, sc.extra, sc.frames, sc.interim, callerName, c04Short(first), ferr, secondOK, dials)
 		if why != "" {
 			human += " ORACLE: " + why
 		}
-		s.Observe(fmt.Sprintf("h2cut/%d/%s/%d/%d/%d", i, sc.name, sc.declared, sc.send, sc.frames), ok, "", !sc.complete, human, why)
+		s.Case(line, impl, ok, "", !sc.complete, human)
 	}
 	s.Finish()
 	if failures >= 12 {
 		return
 	}
-	for _, need := range []string{"ok", "fail", "complete", "complete-head-with-length", "rst-code-0", "rst-code-8", "goaway-code-0-last-at", "goaway-code-0-last-below", "goaway-graceful-complete", "rst-noerror-after-end-stream", "tcp-close", "midframe", "short-end-stream", "overlong", "overlong-late-frame", "overlong-at-read-buffer", "overlong-zero-length", "close-before-headers"} {
+	for _, need := range []string{"ok", "fail", "complete", "complete-head-with-length", "rst-code-0", "rst-code-8", "goaway-code-0-last-at", "goaway-code-0-last-below", "goaway-graceful-complete", "rst-noerror-after-end-stream", "tcp-close", "midframe", "short-end-stream", "overlong", "overlong-late-frame", "overlong-at-read-buffer", "overlong-zero-length", "close-before-headers",
+		"rst-before-headers-code-7", "rst-before-headers-code-1", "rst-before-headers-code-0", "goaway-before-headers-code-0-last-below", "goaway-before-headers-code-2-last-below", "complete-with-trailers", "short-with-trailers", "data-after-end-stream", "headers-end-stream-with-length", "caller-closes-early"} {
 		if reached[need] == 0 {
 			t.Errorf("C03/h2cut never reached %q", need)
 		}
